@@ -19,6 +19,7 @@
 #include "bitserializer/types/std/memory.h"
 #include "bitserializer/types/std/valarray.h"
 #include "bitserializer/types/std/unordered_map.h"
+#include "bitserializer/types/std/chrono.h"
 
 using namespace sv; using ref::Val; using tl::archName;
 
@@ -232,12 +233,16 @@ static void stdScenario(bsx::Ctx& c) {
 	}
 }
 
+
+#include "harness/kinds_scenario.hpp"
+
 static void body(bsx::Ctx& c) {
 	static std::vector<Base> B = bases();
 	static auto offs = offences();
-	int scen = c.choose(3, "scenario");
+	int scen = c.choose(4, "scenario");
 	if (scen == 1) { typedScenario(c); return; }
 	if (scen == 2) { stdScenario(c); return; }
+	if (scen == 3) { kindsScenario(c, "C05", offences()); return; }
 	int arch = c.choose(4, "archive");
 	int bi = c.choose(static_cast<int>(B.size()), "base");
 	const Base& b = B[static_cast<size_t>(bi)];
